@@ -40,12 +40,12 @@ ASSUMPTIONS = [
     "Multicast is constructed as Multicast(ezsp) and started with startup(coordinator) as in the pinned tree",
 ]
 EXHAUSTIVE = {
-    "quick": "operation strings up to length 3 (sizes 0..2) / 2 (sizes 3..4) over 3 groups, all write answers, all initial tables",
+    "quick": "operation strings up to length 3 (sizes 0..2) / 2 (sizes 3..4) over 3 groups, all write answers, all initial tables of sizes 0..3 (size 4: every third one, rotating with the seed)",
     "thorough": "operation strings up to length 4 (sizes 0..2) / 3 (sizes 3..4) over 3 groups, all write answers, all initial tables",
 }
 REACH = {t: ["sub_rejected", "sub_timeout", "sub_ok", "unsub_rejected", "unsub_timeout", "unsub_ok",
              "full_table", "size_0", "already_subscribed", "startup_subscribed", "probe_free_count_checked",
-             "versions_3", "startup_several_endpoints", "startup_group_on_two_endpoints"] for t in ("quick", "thorough")}
+             "versions_3", "startup_several_endpoints", "startup_group_on_two_endpoints", "rejection_status_family_swept"] for t in ("quick", "thorough")}
 SHARD_TIMEOUT = {"quick": 900, "thorough": 3600}
 
 G = [0x1001, 0x1002, 0x1003]
@@ -87,7 +87,7 @@ def shards(tier, seed):
                 chunk = 4
             for c in range(chunk):
                 out.append({"version": V, "n": n, "depth": depth, "chunk": c, "chunks": chunk, "seed": seed,
-                            "ntabs": len(tabs)})
+                            "ntabs": len(tabs), "sample": 3 if (tier == "quick" and n == 4) else 0})
     out.sort(key=lambda d: -d["n"])
     return out
 
@@ -109,6 +109,8 @@ def run_shard(desc) -> Acc:
     install_status_contract(acc)
     V, n, depth = desc["version"], desc["n"], desc["depth"]
     tabs = initial_tables(n)[desc["chunk"]::desc["chunks"]]
+    if desc.get("sample"):
+        tabs = tabs[desc["seed"] % desc["sample"]::desc["sample"]]
     acc.reach["version:%d" % V] += 1
 
     async def main(loop):
@@ -302,6 +304,17 @@ def run_shard(desc) -> Acc:
                         if len(w2) == len(seq2) and len(seq2) < depth:
                             await explore(ents, sg, seq2, depth)
 
+        if n == 2 and desc["chunk"] == 0:
+            # the reason given for a rejection must not matter: every status code of the reply's family
+            import bellows.types as bt_
+
+            T_ = ncp.COMMANDS["setMulticastTableEntry"][2]["status"]
+            fam = (sorted(int(m) for m in bt_.sl_Status if int(m)) + [0x7777, 0xFFFFFFFF]) if T_.__name__ == "sl_Status" else list(range(1, 256))
+            ents0 = [(0, 0, 0), (G[1], 1, 0)]
+            for code in fam:
+                await run(ents0, [], [("sub", G[0], "reject:#%d" % code), ("sub", G[2], "ok")])
+                await run(ents0, [], [("unsub", G[1], "reject:#%d" % code), ("sub", G[0], "ok")])
+            acc.hit("rejection_status_family_swept")
         for ents in tabs:
             await run(ents, [], [])
             await explore(ents, [], [])
